@@ -1,4 +1,5 @@
 """C05 — bound variables are invisible: no capture, no leakage, renaming-invariant."""
+import numpy as np
 from hypothesis import strategies as st
 from vf.core import robust_gen
 
@@ -7,6 +8,7 @@ from vf.gen import G, HypSource, Opts, SeedSource, exprs
 from vf.lang import (
     ast_shrinks,
     binder_names,
+    close,
     leaf_names,
     rename_binders,
     show,
@@ -120,7 +122,13 @@ class C05(Prop):
         a = cases(Opts(max_depth=d, max_names=3, binders_extra=True))
         b = cases(Opts(max_depth=d, max_names=3, binders_extra=True, reals=True))
         pm = cases(Opts(max_depth=2, max_names=3, binders_extra=True, reals=True, deltas=True, consts=True))
-        return st.tuples(st.one_of(a, a, b, pm), st.sampled_from(MODES)).map(lambda t: {"ast": t[0], "mode": t[1]})
+        main = st.tuples(st.one_of(a, a, b, pm), st.sampled_from(MODES)).map(lambda t: {"ast": t[0], "mode": t[1]})
+        # histories: a lazy binder, then N unrelated binders with their own names, then a substitution whose value has a
+        # free input named like the binder and a second binder re-using the name (the fresh-name supply must never reissue a name)
+        hist = st.tuples(st.sampled_from(["i", "j", "a"]), st.sampled_from(["i", "j", "b"]), st.sampled_from([0, 1, 7, 40, 130, 150, 260, 400]),
+                         st.sampled_from(["eager-with-free-reals", "lazy"]), st.integers(0, 7)).map(
+            lambda t: {"history": {"inner": t[0], "outer": t[1], "between": t[2], "style": t[3], "salt": t[4]}, "ast": ("num", 0.0, "real"), "mode": "eager"})
+        return st.one_of(main, main, main, main, main, main, main, main, main, main, main, hist)
 
     # open known finding: lazily built Approximate leaks mangled names
     known_predicates = {
@@ -133,22 +141,94 @@ class C05(Prop):
         return case["mode"] != "eager" and any(n[0] == "approx" for n in walk(case["ast"]))
 
     def describe(self, case):
+        if "history" in case:
+            return f"[history] {case['history']}"
         return f"[{case['mode']}] {show(case['ast'])}"
 
     def signature(self, case):
+        if "history" in case:
+            return "history|" + case["history"]["style"]
         return ast_signature(case["ast"])
 
     def shrink_candidates(self, case):
+        if "history" in case:
+            h = case["history"]
+            for n in (0, 1, 7, 40, 130, 150, 260):
+                if n < h["between"]:
+                    yield dict(case, history=dict(h, between=n))
+            return
         if case["mode"] != "eager":
             yield dict(case, mode="eager")
         for c in ast_shrinks(case["ast"]):
             yield dict(case, ast=c)
+
+    def check_history(self, h, stt):
+        from collections import OrderedDict
+
+        import funsor.interpretations as I
+        from funsor import Bint, Real, Reals, Tensor, Variable, ops
+        from funsor.interpreter import gensym, reinterpret
+
+        stt.count("history")
+        inner, outer, n, salt = h["inner"], h["outer"], h["between"], h["salt"]
+        fv = np.array([1.0, 2.0, 3.0]) + salt
+        hv = np.array([10.0, 20.0, 40.0]) - salt
+        yv = np.array([1.0, 1.0, 2.0])
+        zv = np.array([1.0, 3.0, 2.0])
+        keep = []
+        x, y, z = Variable("x", Real), Variable("y", Reals[3]), Variable("z", Reals[3])
+        f = Tensor(fv, OrderedDict([(inner, Bint[3])]))
+        g = Tensor(hv, OrderedDict([(outer, Bint[3])]))
+
+        def between():
+            with I.lazy:
+                for k in range(n):
+                    name = f"plate_{salt}_{k}"
+                    keep.append(Tensor(np.ones(2), OrderedDict([(name, Bint[2])])).reduce(ops.add, name))
+
+        try:
+            if h["style"] == "lazy":
+                with I.lazy:
+                    A = (f * x).reduce(ops.add, inner)
+                between()
+                with I.lazy:
+                    C = A(x=g).reduce(ops.add, outer)
+                got = reinterpret(C)
+                want = fv.sum() * hv.sum()
+            else:
+                A = (f * z[Variable(inner, Bint[3])] * x).reduce(ops.add, inner)
+                between()
+                B = A(x=g * y[Variable(outer, Bint[3])])
+                C = B.reduce(ops.add, outer)
+                if set(C.inputs) != {"y", "z"}:
+                    raise Violation("history:inputs", f"inputs {sorted(C.inputs)} after reducing {outer!r}: {h}")
+                got = C(y=Tensor(yv), z=Tensor(zv))
+                want = (fv * zv).sum() * (hv * yv).sum()
+        except Violation:
+            raise
+        except Exception as e:
+            raise Decline("history-raised:" + innermost_funsor_frame(e))
+        if got.inputs or not close(np.asarray(got.data), want):
+            raise Violation("history:captured", f"sum_{outer} (sum_{inner} f z x)(x = h y[{outer}]) after {n} unrelated binders: {getattr(got, 'data', got)} expected {want}: {h}")
+        # the supply itself: names for one prefix, interleaved with many other prefixes, are never reissued
+        seen = set()
+        for r in range(3):
+            for k in range(max(n, 1)):
+                for pre in (f"q{salt}_{k}__BOUND", inner + "__BOUND"):
+                    name = gensym(pre)
+                    if name in seen:
+                        raise Violation("history:fresh-name-reissued", f"gensym({pre!r}) returned {name!r} twice: {h}")
+                    seen.add(name)
+        if n >= 130:
+            stt.mark_nontrivial(case_hash(h))
 
     def check(self, case, stt):
         import funsor.interpretations as I
         from funsor.interpreter import reinterpret
         from vf.build import build
 
+        if "history" in case:
+            return self.check_history(case["history"], stt)
         node, mode = case["ast"], case["mode"]
         free = set(typeof(node)[0])
         binders = binder_names(node)
